@@ -350,10 +350,14 @@ class JSONPointer:
         )
 
     def __eq__(self, other: object) -> bool:
-        return isinstance(other, JSONPointer) and self.parts == other.parts
+        # Reference tokens are strings. Index-like tokens are held as ints or as
+        # strings depending on how the pointer was constructed.
+        return isinstance(other, JSONPointer) and [str(p) for p in self.parts] == [
+            str(p) for p in other.parts
+        ]
 
     def __hash__(self) -> int:
-        return hash(self.parts)
+        return hash(tuple(str(p) for p in self.parts))
 
     def __repr__(self) -> str:
         return f"JSONPointer({self._s!r})"
